@@ -72,6 +72,8 @@ pub struct Profile {
     pub many: u64,
     /// deposits, refunds and withdrawals whose sums sit at the 64-bit boundary (C20's overflow clause)
     pub huge: u64,
+    /// certificates / proposals decoded from another producer's encoding, and the same certificate handed over twice
+    pub alt_values: u64,
 }
 
 impl Profile {
@@ -120,6 +122,7 @@ impl Profile {
             observers: 120,
             many: 60,
             huge: 0,
+            alt_values: 150,
         }
     }
 }
@@ -623,6 +626,10 @@ pub fn generate(seed: u64, tier: Tier, p: &Profile) -> Scenario {
                 CertSpec::StakeDeregCoin(_, d) | CertSpec::DRepDereg(_, d) => plan.have += *d as u128,
                 _ => {}
             }
+            if wit.is_none() && g.r.chance(1, 8) {
+                // the same certificate handed over a second time (refused, or - for a set - held once)
+                plan.pre_tail.push(Op::Cert(c.clone(), None));
+            }
             plan.pre.push(Op::Cert(c, wit));
         }
     }
@@ -1079,7 +1086,8 @@ pub fn generate(seed: u64, tier: Tier, p: &Profile) -> Scenario {
     let rng = g.rng_plan(seed);
     let hash_seed = Rng::stream(seed, 3).next();
     let adaptive = pm(&mut g.r, p.adaptive) && !off.is_empty();
-    let mut sc = Scenario { knobs: g.k.clone(), world: g.w, ops, rng, hash_seed, profile: format!("wallet/{}", p.name) };
+    let alt_values = if pm(&mut g.r, p.alt_values) { 1 + g.r.below(250) as u8 } else { 0 };
+    let mut sc = Scenario { knobs: g.k.clone(), world: g.w, ops, rng, hash_seed, profile: format!("wallet/{}", p.name), alt_values };
     if adaptive && g.r.chance(1, 2) {
         // first measurement: choose coins_per_byte so that the minimum ADA of the last (change) output
         // sits just below the 2^16 coin-width edge; only ever lowered, so requested outputs stay valid
